@@ -1,3 +1,4 @@
 SPECIFICATION TSpec
 CONSTANTS
   DEV_ReaderNoKST = FALSE
+  DEV_NoTruncate = FALSE
